@@ -248,12 +248,38 @@ def check_z3(ctx) -> None:
     ctx.check(okd, 'Z3', 'ReservoirPressurePredictor/depletion-duration', f'{rel}:{dt.lineno}',
               f'the overpressure is spread over `{norm(dt)}` steps; at the stated rate (percent of the overpressure per year) it lasts '
               f'(100 / rate) years x steps per year, rounded once', fact='int(100/rate * tspy)')
+    # floor: on every path through the loop body the element finally holds max(decline, hydrostatic) - whether it is stored first and then
+    # overwritten, or tested first and stored once
+    ELT = f'{S}[{t}]'
+    D_TXT = norm(inline_sequential(st[0].value, st[0], cross_loops=True, keep=(S,)))
+
+    def walk_paths(stmts, cur, conds):
+        """yield (conds, final value text or None) for each path; `cur` is the text last stored into the element."""
+        if not stmts:
+            yield conds, cur
+            return
+        s0, rest = stmts[0], stmts[1:]
+        if isinstance(s0, ast.Assign) and norm(s0.targets[0]) == ELT:
+            yield from walk_paths(rest, norm(inline_sequential(s0.value, s0, cross_loops=True, keep=(S,))), conds)
+        elif isinstance(s0, ast.If):
+            tt = norm(inline_sequential(s0.test, s0, cross_loops=True, keep=(S,)))
+            if cur is not None:
+                tt = tt.replace(ELT, cur)
+            yield from walk_paths(list(s0.body) + rest, cur, conds + [(tt, True)])
+            yield from walk_paths(list(s0.orelse) + rest, cur, conds + [(tt, False)])
+        elif isinstance(s0, (ast.Break, ast.Continue)):
+            yield conds, cur
+        else:
+            yield from walk_paths(rest, cur, conds)
+    paths_ = list(walk_paths(list(lp.body), None, []))
+    H_TXT = 'initial_pressure_kPa'
+    below = (f'{D_TXT} < {H_TXT}', f'{D_TXT} <= {H_TXT}', f'{H_TXT} > {D_TXT}', f'{H_TXT} >= {D_TXT}')
+    okf = len(paths_) == 2 and all(len(c_) == 1 and c_[0][0] in below for c_, _v in paths_) and \
+        {(c_[0][1], v_) for c_, v_ in paths_} == {(True, H_TXT), (False, D_TXT)}
     fl = [s for s in lp.body if isinstance(s, ast.If)]
-    okf = len(fl) == 1 and norm(inline_sequential(fl[0].test, fl[0], cross_loops=True, keep=(S,))) in (f'{S}[{t}] < initial_pressure_kPa', f'{S}[{t}] <= initial_pressure_kPa') and \
-        any(isinstance(s, ast.Assign) and norm(s.targets[0]) == f'{S}[{t}]' and norm(inline_sequential(s.value, s, cross_loops=True, keep=(S,))) == 'initial_pressure_kPa'
-            for s in fl[0].body) and fl[0].lineno > st[0].lineno
     ctx.check(okf, 'Z3', 'ReservoirPressurePredictor/floor-at-hydrostatic', f'{rel}:{fl[0].lineno if fl else lp.lineno}',
-              'after each update the pressure is not floored at the hydrostatic pressure')
+              'after each update the pressure is not floored at the hydrostatic pressure'
+              + (f' (paths: {[(c_, v_) for c_, v_ in paths_][:3]})' if not okf else ''))
     er = [s for s in f.node.body if isinstance(s, ast.If) and any(isinstance(x, ast.Return) for x in s.body)]
     ctx.check(len(er) == 1 and norm(er[0].test) in ('overpressure_percentage == 100.0', 'overpressure_percentage == 100'), 'Z3',
               'ReservoirPressurePredictor/no-overpressure-constant', f'{rel}:{er[0].lineno if er else f.node.lineno}',
